@@ -344,19 +344,51 @@ def rules(ck, P):
     tile_h = [h for h in hs if h.endswith("serve_tile")]
     if ck.anchor("R-STATUS", "serve_tile", tile_h, 1):
         b = P.fn(tile_h[0])
-        # if let Ok(Some(r)) = response { ok_data } else if let Err(e) = response { error_400 } else { error_404 }
-        chain = []
-        for n in ir.walk_nodes(b["body"]):
-            if n.get("k") == "if" and n["c"].get("k") == "letx":
-                pat = n["c"]["pat"]
-                pq = absint.vname(pat.get("q") or "")
-                sub = absint.vname(pat["ps"][0].get("q")) if pat.get("ps") and pat["ps"][0].get("k") == "tstruct" else None
-                calls = [absint.vname(x.get("q") or "").rsplit("::", 1)[-1] for x in ir.walk_nodes(n["then"]) if x.get("k") == "call" and (x.get("q") or "").startswith("versatiles::")]
-                chain.append((pq.rsplit("::", 1)[-1], sub.rsplit("::", 1)[-1] if sub else None, calls))
-                if "else" in n and n["else"].get("k") != "if":
-                    els = [absint.vname(x.get("q") or "").rsplit("::", 1)[-1] for x in ir.walk_nodes(n["else"]) if x.get("k") == "call" and (x.get("q") or "").startswith("versatiles::")]
-                    chain.append(("else", None, els))
-        want = [("Ok", "Some", ["ok_data"]), ("Err", None, ["error_400"]), ("else", None, ["error_404"])]
+        # the decision on the lookup result, as an `if let .. else if let .. else` chain or as a `match`: evaluated for the three
+        # possible outcomes (first matching pattern wins), the answer is the set of workspace calls of the selected branch
+        def last(q):
+            return absint.vname(q or "").rsplit("::", 1)[-1]
+
+        def pat_matches(pat, outcome):
+            k_ = pat.get("k")
+            if k_ in ("wild", "bind"):
+                return True
+            if k_ == "ref":
+                return pat_matches(pat["p"], outcome)
+            if k_ == "or":
+                return any(pat_matches(x, outcome) for x in pat.get("ps", ()))
+            if k_ == "tstruct" and last(pat.get("q")) == outcome[0]:
+                sub = pat["ps"][0] if pat.get("ps") else {"k": "wild"}
+                if sub.get("k") in ("wild", "bind"):
+                    return True
+                sq = last(sub.get("q") or (sub.get("e") or {}).get("q"))
+                return outcome[1] is not None and sq == outcome[1]
+            return False
+
+        def ws_calls(x):
+            return sorted({last(y.get("q")) for y in ir.walk_nodes(x) if y.get("k") == "call" and (y.get("q") or "").startswith("versatiles::")})
+
+        def is_result_pat(pat):
+            return pat.get("k") == "tstruct" and last(pat.get("q")) in ("Ok", "Err")
+
+        def decide(n, outcome):
+            n = ir.unparen(n)
+            if n.get("k") == "block" and not n.get("stmts") and n.get("tail") is not None and ir.unparen(n["tail"]).get("k") in ("if", "match"):
+                return decide(n["tail"], outcome)
+            if n.get("k") == "if" and n["c"].get("k") == "letx" and is_result_pat(n["c"]["pat"]):
+                if pat_matches(n["c"]["pat"], outcome):
+                    return ws_calls(n["then"])
+                return decide(n["else"], outcome) if "else" in n else []
+            if n.get("k") == "match" and any(is_result_pat(a["pat"]) for a in n["arms"]):
+                for a in n["arms"]:
+                    if "guard" not in a and pat_matches(a["pat"], outcome):
+                        return ws_calls(a["body"])
+                return ["?"]
+            return ws_calls(n)
+        root = next((n for n in ir.walk_nodes(b["body"]) if (n.get("k") == "if" and n["c"].get("k") == "letx" and is_result_pat(n["c"]["pat"])) or
+                     (n.get("k") == "match" and any(is_result_pat(a["pat"]) for a in n["arms"]))), None)
+        chain = {o: (decide(root, o) if root is not None else None) for o in (("Ok", "Some"), ("Ok", "None"), ("Err", None))}
+        want = {("Ok", "Some"): ["ok_data"], ("Ok", "None"): ["error_404"], ("Err", None): ["error_400"]}
         ck.check(chain == want, "R-STATUS", b["q"], "Ok(Some)->ok_data(200), Err->400, otherwise 404", "status mapping is %s" % chain, ir.loc(b))
     gd = [b for b in P.bodies if b["q"].endswith("tile_source::TileSource::get_data")]
     if ck.anchor("R-STATUS", "TileSource::get_data", gd, 1):
